@@ -155,7 +155,9 @@ class C09(SeqProp):
                 s.emit("OpHistogram", dict(opts=o, buckets=gens.any_buckets(r) if r.random() < 0.15 else gens.good_buckets(r)))
             else:
                 vars_ = some_vars(r, valid, o["consts"], CONST_POOL, (0, 3) if r.random() < 0.1 else (1, 3))
-                if r.random() < 0.25: o["vars"] = r.sample(["shard", "a", "b", "v1", "zz"], r.randint(1, 2))   # preset variable labels: the vector constructor REPLACES them
+                if r.random() < 0.25:
+                    o["vars"] = r.sample(["shard", "a", "b", "v1", "zz"], r.randint(1, 2))   # preset variable labels: the vector constructor REPLACES them
+                    if r.random() < 0.35: vars_ = []                                         # ... also by an EMPTY list of names
                 if kind == "CV": v = s.emit("OpCounterVec", r.choice(["NF", "NU"]), o, vars_)
                 elif kind == "GV": v = s.emit("OpGaugeVec", r.choice(["NF", "NI"]), o, vars_)
                 else: v = s.emit("OpHistVec", dict(opts=o, buckets=gens.good_buckets(r)), vars_)
@@ -200,7 +202,9 @@ class C09(SeqProp):
                 if keep(m, expect_ok(o, [], True)) and r.random() < 0.5: s.emit("OpObserve", m, gens.some_float(r))
             else:
                 vars_ = some_vars(r, valid, o["consts"], CONST_POOL, (1, 2))
-                if r.random() < 0.25: o["vars"] = r.sample(["shard", "a", "b", "v1", "zz"], r.randint(1, 2))   # preset variable labels: the vector constructor REPLACES them
+                if r.random() < 0.25:
+                    o["vars"] = r.sample(["shard", "a", "b", "v1", "zz"], r.randint(1, 2))   # preset variable labels: the vector constructor REPLACES them
+                    if r.random() < 0.35: vars_ = []                                         # ... also by an EMPTY list of names
                 if kind == "CV": v = s.emit("OpCounterVec", r.choice(["NF", "NU"]), o, vars_)
                 elif kind == "GV": v = s.emit("OpGaugeVec", r.choice(["NF", "NI"]), o, vars_)
                 else: v = s.emit("OpHistVec", dict(opts=o, buckets=gens.good_buckets(r)), vars_)
